@@ -207,6 +207,7 @@ class Model(object):
         self.fval_v[[k1, k2], :] = self.fval_v[[k2, k1], :]
         self.objval[[k1, k2]] = self.objval[[k2, k1]]
         self.eval_num[[k1, k2]] = self.eval_num[[k2, k1]]
+        self.nsamples[[k1, k2]] = self.nsamples[[k2, k1]]
         if self.kopt == k1:
             self.kopt = k2
         elif self.kopt == k2:
